@@ -222,9 +222,12 @@ def stepLine (a : TAcc) (n : Nat) (line : String) : IO TAcc := do
     | some lp => return { a with sim := { s with batch := s.batch.filter (fun (q : Nat × Nat) => q.1 != lp), batchRefused := s.batchRefused ++ [lp] } }
     | none => return { a with sim := s }
   | "ret" :: _ :: "probe" :: rest =>
+    -- `limit=none`: the dispatcher has ended and took the buffer accounting with it
+    match kvNat rest "limit" with
+    | none => return { a with sim := s }
+    | some l =>
     let q := (kvNat rest "queue").getD 0
     let u := (kvNat rest "used").getD 0
-    let l := (kvNat rest "limit").getD 0
     let s := if u > l then s.fail n s!"receive buffer usage {u} exceeds the advertised buffer {l}" else s
     let s := if q > l + 2 then s.fail n s!"{q} messages queued on a port whose advertised receive buffer is {l} bytes" else s
     return { a with sim := s }
